@@ -32,6 +32,8 @@ def _report_to_dict(rep) -> Dict[str, Any]:
         "shape": rep.shape,
         "trace": rep.trace,
         "solver_time": rep.solver_time,
+        "concolic": getattr(rep, "concolic", None),
+        "note": getattr(rep, "note", ""),
         "obligations": [
             {
                 "prop": ob.prop,
